@@ -460,3 +460,192 @@ pub fn gen_case(t: &mut Tape, p: &Params) -> (Universe, Problem) {
     gen_ids(t, &mut u, p);
     (u, problem)
 }
+
+// ------------------------------------------------------------------ conflict-free construction
+
+/// C07 / C09: universes that are conflict-free *by construction*: every package has a
+/// target candidate; every requirement issued by the root or by a target ranks the target
+/// of the required package first; constrains of targets admit the targets; locks name the
+/// target; exclusions / Unknown only hit non-targets. All non-target candidates carry
+/// unconstrained random dependencies (noise that must neither be selected nor fetched).
+pub fn gen_conflict_free(t: &mut Tape, p: &Params, with_hints: bool) -> (Universe, Problem) {
+    let mut b = Builder {
+        u: Universe::default(),
+        p,
+    };
+    for i in 0..4 {
+        b.u.strings.push(Str {
+            id: 0,
+            text: format!("reason{i}"),
+        });
+    }
+    let np = t.range(p.min_pkgs.max(2), p.max_pkgs.max(2));
+    let mut target: Vec<usize> = vec![];
+    for pi in 0..np {
+        let nc = 1 + t.below(p.max_cands.max(1));
+        let cands = (0..nc)
+            .map(|ci| Cand {
+                sid: 0,
+                version: ci as u32 + 1,
+                deps: Deps::empty(),
+                excluded: None,
+            })
+            .collect::<Vec<_>>();
+        let sort_rank = if t.chance(p.p_perm_rank, 1000) {
+            t.permutation(nc)
+        } else {
+            (0..nc).collect()
+        };
+        let tgt = t.below(nc);
+        let favored = if t.chance(1, 2) { Some(tgt) } else { None };
+        let locked = if t.chance(p.p_locked, 1000) { Some(tgt) } else { None };
+        let hint = if !with_hints {
+            Hint::None
+        } else {
+            match t.weighted(&p.hint_w) {
+                0 => Hint::None,
+                1 => Hint::All,
+                _ => {
+                    let mut v = vec![];
+                    for i in 0..nc {
+                        if t.chance(1, 2) {
+                            v.push(i);
+                        }
+                    }
+                    Hint::Some(v)
+                }
+            }
+        };
+        target.push(tgt);
+        b.u.packages.push(Package {
+            name_id: 0,
+            name: pkg_name(pi),
+            missing: false,
+            cands,
+            sort_rank,
+            favored,
+            locked,
+            hint,
+            unlisted: vec![],
+        });
+    }
+    // a version set on `q` whose first-ranked member is the target of q
+    fn target_first_vs(b: &mut Builder, t: &mut Tape, q: usize, tgt: usize) -> usize {
+        let pk = &b.u.packages[q];
+        let pos = pk.sort_rank.iter().position(|&c| c == tgt).unwrap();
+        let favored = pk.favored == Some(tgt);
+        let mut matches = vec![tgt];
+        for (rank_pos, &c) in pk.sort_rank.iter().enumerate() {
+            if c == tgt {
+                continue;
+            }
+            // candidates ranked before the target may only be included if the target is favored
+            let allowed = favored || rank_pos > pos;
+            if allowed && t.chance(1, 2) {
+                matches.push(c);
+            }
+        }
+        matches.sort_unstable();
+        b.u.vsets.push(VSet {
+            id: 0,
+            pkg: q,
+            matches,
+        });
+        b.u.vsets.len() - 1
+    }
+    // a version set on `q` that does NOT contain the target (may be empty)
+    fn non_target_vs(b: &mut Builder, t: &mut Tape, q: usize, tgt: usize) -> usize {
+        let n = b.u.packages[q].cands.len();
+        let mut matches = vec![];
+        for c in 0..n {
+            if c != tgt && t.chance(1, 2) {
+                matches.push(c);
+            }
+        }
+        b.u.vsets.push(VSet {
+            id: 0,
+            pkg: q,
+            matches,
+        });
+        b.u.vsets.len() - 1
+    }
+    // a superset-of-target version set (for constrains)
+    fn target_containing_vs(b: &mut Builder, t: &mut Tape, q: usize, tgt: usize) -> usize {
+        let n = b.u.packages[q].cands.len();
+        let mut matches = vec![];
+        for c in 0..n {
+            if c == tgt || t.chance(1, 2) {
+                matches.push(c);
+            }
+        }
+        b.u.vsets.push(VSet {
+            id: 0,
+            pkg: q,
+            matches,
+        });
+        b.u.vsets.len() - 1
+    }
+    let good_req = |b: &mut Builder, t: &mut Tape, from: Option<usize>, target: &Vec<usize>| -> Req {
+        let np = b.u.packages.len();
+        let q = b.pick_target_pkg(t, from);
+        if t.chance(b.p.p_union, 1000) {
+            let first = target_first_vs(b, t, q, target[q]);
+            let mut members = vec![first];
+            let k = 1 + t.below(2);
+            for _ in 0..k {
+                let q2 = t.below(np);
+                members.push(non_target_vs(b, t, q2, target[q2]));
+            }
+            b.u.unions.push(Union { id: 0, members });
+            Req::Union(b.u.unions.len() - 1)
+        } else {
+            Req::Single(target_first_vs(b, t, q, target[q]))
+        }
+    };
+    for pi in 0..np {
+        let nc = b.u.packages[pi].cands.len();
+        for ci in 0..nc {
+            if ci == target[pi] {
+                let nr = t.below(p.max_reqs + 1);
+                let mut reqs = vec![];
+                for _ in 0..nr {
+                    reqs.push(good_req(&mut b, t, Some(pi), &target));
+                }
+                let nk = t.below(p.max_constrains + 1);
+                let mut constrains = vec![];
+                for _ in 0..nk {
+                    let q = t.below(np);
+                    constrains.push(target_containing_vs(&mut b, t, q, target[q]));
+                }
+                b.u.packages[pi].cands[ci].deps = Deps::Known { reqs, constrains };
+            } else {
+                if t.chance(p.p_excluded.max(100), 1000) {
+                    b.u.packages[pi].cands[ci].excluded = Some(t.below(b.u.strings.len()));
+                }
+                let deps = b.new_deps(t, pi);
+                b.u.packages[pi].cands[ci].deps = deps;
+            }
+        }
+    }
+    let nr = t.range(1, p.max_root_reqs.max(1));
+    let mut reqs = vec![];
+    for _ in 0..nr {
+        reqs.push(good_req(&mut b, t, None, &target));
+    }
+    let nk = t.below(p.max_root_constraints + 1);
+    let mut constraints = vec![];
+    for _ in 0..nk {
+        let q = t.below(np);
+        constraints.push(target_containing_vs(&mut b, t, q, target[q]));
+    }
+    let mut u = b.u;
+    gen_ids(t, &mut u, p);
+    (
+        u,
+        Problem {
+            reqs,
+            constraints,
+            soft: vec![],
+        },
+    )
+}
